@@ -458,7 +458,11 @@ impl StorageEngine {
         // Collect keys from all shards
         for shard in &database.shards {
             let shard_guard = shard.read().unwrap();
-            for key in shard_guard.data.keys() {
+            for (key, stored_value) in shard_guard.data.iter() {
+                // A key past its deadline does not exist (DBSIZE, RANDOMKEY, snapshots)
+                if stored_value.is_expired() {
+                    continue;
+                }
                 all_keys.push(key.clone());
             }
         }
@@ -2088,7 +2092,10 @@ impl StorageEngine {
         // Collect keys from all shards
         for shard in &database.shards {
             let shard_guard = shard.read().unwrap();
-            for key in shard_guard.data.keys() {
+            for (key, stored_value) in shard_guard.data.iter() {
+                if stored_value.is_expired() {
+                    continue;
+                }
                 let key_str = String::from_utf8_lossy(key);
                 if pattern_matches(&pattern_str, &key_str) {
                     matching_keys.push(key.clone());
